@@ -130,6 +130,10 @@ func runAbortInstance(p *Program, r *RuleResult, inst abortInstance) error {
 				}
 			}
 			fail := successEdgesFail(fn, call)
+			// the true edge of a test against a sentinel the instance does not name is a failure
+			// edge as well: `if errors.Is(err, ErrX) { carry on }` in front of `if err != nil`
+			// (round 7, C04-r7am3)
+			fail = append(fail, testEdges(fn, otherSentinelTests(fn, vals, inst.sentinels), true)...)
 			if len(fail) == 0 {
 				// returned directly, or handed to the caller through a named result
 				direct := false
@@ -625,4 +629,47 @@ func init() {
 			return nil
 		},
 	})
+}
+
+// otherSentinelTests: tests of an error value against a package-level sentinel (errors.Is or
+// == / !=) other than the named ones.
+func otherSentinelTests(fn *ssa.Function, errVals map[ssa.Value]bool, named [][2]string) []eofTest {
+	isNamed := func(v ssa.Value) bool {
+		for _, s := range named {
+			pkg := s[0]
+			if strings.HasPrefix(pkg, "pkg/") {
+				pkg = modPath + "/" + pkg
+			}
+			if isGlobalNamed(v, pkg, s[1]) {
+				return true
+			}
+		}
+		return false
+	}
+	isSentinel := func(v ssa.Value) bool {
+		u, ok := v.(*ssa.UnOp)
+		if !ok || u.Op != token.MUL {
+			return false
+		}
+		_, isG := u.X.(*ssa.Global)
+		return isG && isErrorType(v.Type()) && !isNamed(v)
+	}
+	var out []eofTest
+	eachCall(fn, func(c ssa.CallInstruction) {
+		if f := calleeFunc(c); f != nil && f.FullName() == "errors.Is" && len(c.Common().Args) == 2 && errVals[c.Common().Args[0]] && isSentinel(c.Common().Args[1]) {
+			if v, ok := c.(*ssa.Call); ok {
+				out = append(out, eofTest{v, true, v.Pos()})
+			}
+		}
+	})
+	for _, b := range fn.Blocks {
+		for _, in := range b.Instrs {
+			if bo, ok := in.(*ssa.BinOp); ok && (bo.Op == token.EQL || bo.Op == token.NEQ) {
+				if (errVals[bo.X] && isSentinel(bo.Y)) || (errVals[bo.Y] && isSentinel(bo.X)) {
+					out = append(out, eofTest{bo, false, bo.Pos()})
+				}
+			}
+		}
+	}
+	return out
 }
